@@ -353,7 +353,7 @@ T_OPS = [("A128KW", "oct16", 0, "A128GCM", "compact", None), ("A128KW", "oct16",
          ("ECDH-ES+A128KW", "P-256", 1, "A128GCM", "flattened", None), ("RSA-OAEP", "rsa", 0, "A128GCM", "compact", None)]
 
 
-def h_threads(ctx):
+def h_threads(ctx, menu_idx=None):
     from .. import conc
 
     def pt_of(spec):
@@ -396,7 +396,7 @@ def h_threads(ctx):
             jwk = scen.key(kind, which)
             out[(kind, which)] = (A.jkey(jwk, "dict", private=(jwk["kty"] == "oct")), A.jkey(jwk, "dict"))
         return out
-    menu = T_OPS if config.thorough() else [T_OPS[i] for i in (0, 2, 3, 4, 5, 6)]
+    menu = [T_OPS[i] for i in menu_idx] if menu_idx else (T_OPS if config.thorough() else [T_OPS[i] for i in (0, 2, 3, 4, 5, 6)])
     return conc.pairs(ctx, [op(s_) for s_ in menu], shared, judge, thorough=config.thorough())
 
 
